@@ -33,6 +33,8 @@ static int owner_tid;
 static pthread_t poster[MAXP];
 static int posters_done;
 static int owner_ops;
+static struct iv_fd *xfd;		/* a descriptor of the owner that becomes ready together with a post */
+static int xfd_kfd = -1, xfd_registered, xfd_calls;
 
 static void handler(void *c);
 
@@ -65,10 +67,27 @@ static void post(struct erec *r)
 	iv_event_post(r->ev);
 }
 
+static void xfd_in(void *c)
+{
+	sx_assert(xfd_registered, "C01.fd-handler-after-unregister");
+	xfd_calls++;
+	kfds[xfd_kfd].rd = 0;	/* the data is consumed */
+	sx_cover("event.fd-in-same-batch-handled");
+}
+
 static void handler(void *c)
 {
 	struct erec *r = c;
 	int a;
+
+	if (xfd_registered && sx_opt("withfd", 0) == 2 && sx_choose(2)) {
+		/* C01: the descriptor's event may already be collected in this iteration */
+		sx_cover("event.handler-unregisters-fd-of-same-batch");
+		iv_fd_unregister(xfd);
+		free(xfd);
+		xfd = NULL;
+		xfd_registered = 0;
+	}
 
 	sx_note("cb:event", r->id);
 	sx_assert(sx_tid() == owner_tid, "C08.handler-in-wrong-thread");
@@ -124,6 +143,8 @@ static void *poster_main(void *arg)
 		int e = nE > 1 ? sx_choose(nE) : 0;
 		sx_note("post", e);
 		post(&E[e]);
+		if (xfd_kfd >= 0)
+			kfds[xfd_kfd].rd = 1;	/* data arrives on the owner's descriptor right after the post */
 	}
 	posters_done++;
 	return NULL;
@@ -206,6 +227,17 @@ void sx_main(void)
 	for (i = 0; i < nE; i++) {
 		E[i].id = i;
 		ev_register(&E[i]);
+	}
+	if (sx_opt("withfd", 0)) {
+		xfd = malloc(sizeof(*xfd));
+		IV_FD_INIT(xfd);
+		xfd_kfd = k_new_generic();
+		xfd->fd = xfd_kfd;
+		xfd->cookie = xfd;
+		xfd->handler_in = xfd_in;
+		iv_fd_register(xfd);
+		xfd_registered = 1;
+		k_order_choice = 1;
 	}
 	for (i = 0; i < nP; i++)
 		pthread_create(&poster[i], NULL, poster_main, NULL);
